@@ -52,6 +52,8 @@ def eq(req, a, b):
         return True
     if a.startswith("panic") and b.startswith("panic"):
         return True
+    if a.startswith("act ") and b.startswith("act "):
+        return _hexeq(req, a, b)      # apply / apply_slice / apply_mat results, amplitude by amplitude to 1e-9
     if not (a.startswith("ok ") and b.startswith("ok ")):
         return False
     sa, sb = a.split(" | "), b.split(" | ")
@@ -97,7 +99,7 @@ SPEC = {
     "eq": eq,
     "spec_check": spec_check,
     "classify": lambda fl: KNOWN_CLASSES.get(fl.get("class")),
-    "nontrivial": lambda r, a: r[:2] in ("g ", "m ", "k ", "s "),
+    "nontrivial": lambda r, a: r[:2] in ("g ", "m ", "k ", "s ", "a "),
     "rule": "the two examples of the documentation; ~90 fixed strings (test-suite strings, edge cases: empty parts, glued digits, Unicode "
             "digits/blanks, usize::MAX and beyond, repeated qubits, every documented name); every documented name alone in random "
             "letter case; grammar-generated descriptions of 1..6 parts (documented names in random letter case, argument expressions "
@@ -111,7 +113,12 @@ SPEC = {
             "the qubit list; qubit lists in strictly descending order (CX 3 1, CCX 2 1 0) besides random orders; u2/u3/cu2/cu3 alone "
             "with clearly different parameter values (a swapped phi/lambda shows in verif_ops to 1e-4 and in matrix()); object "
             "histories: an earlier description, the current one and the earlier one again built under the SAME name while the first "
-            "objects are alive, all observed afterwards.  Stabilizer route: Clifford-only descriptions (every stabilizer gate name; the "
+            "objects are alive, all observed afterwards.  Whole exponents at and beyond the i32 range (2^31-1, 2^31, 2^31+1, 2^32, "
+            "1e10, 1.0e11, negative counterparts; bases -1, 1+-1e-10, 0.999999, ...) in arguments.  ACTION (kind a): apply, apply_slice "
+            "on a random vector and apply_mat on a random 2^w x 2 matrix for descriptions with runs of consecutive sub-gates on the "
+            "same qubit SET in alternating / permuted operand order (CX 0 1; CX 1 0; CX 0 1, CY, CRZ(a), CCX 0 1 2; CCX 2 1 0, Swap "
+            "mixes) on 2..4 qubits - (A) vs the model's routes, (B) vs the ordered product of the documented unitaries times the "
+            "input (1e-9).  Stabilizer route: Clifford-only descriptions (every stabilizer gate name; the "
             "first two-qubit gate with operands ascending / descending neighbours, ascending / descending non-neighbours in turn; 1..4 "
             "parts, 2..4 qubits): conjugate() of the built composite on all 4^w Pauli strings - (A) vs Q1t.Conj.conjugate on the model's "
             "composite, (B) M P = +-P' M for M = ordered product of the documented unitaries on the listed qubits, is_stabilizer() = true "
